@@ -317,7 +317,7 @@ func (C20) Execute(sc *core.Scenario, keepLog bool) *core.Result {
 				// appears in the destination, and the recovery mailbox no longer counts those
 				// bytes as kept
 				var dup *model.Obj
-				if sc.C("dedupmove") == 1 && a.K == "moveout" && o.Bytes != nil && a.Arg(2)%3 != 0 {
+				if sc.C("dedupmove") == 1 && o.Bytes != nil && a.Arg(2)%3 != 0 {
 				search:
 					for _, bn := range append([]string{dest}, m.Boxes...) {
 						b, ok := e.R.Boxes[bn]
@@ -339,6 +339,14 @@ func (C20) Execute(sc *core.Scenario, keepLog bool) *core.Result {
 				u.Conn.DedupeTo = ""
 				e.Tr.Event(a.K, q, dest, r.Status, dup != nil)
 				u.Conn.TakeCalls()
+				if r.OK() && dup != nil && a.K == "copyout" {
+					// a COPY the remote de-duplicates changes nothing: the message stays kept
+					e.St.Probes["copied_out_of_recovery_onto_duplicate"]++
+					s.Cmd("UNSELECT")
+					s.M.Unselect()
+					check("recovery-out-dedup")
+					break
+				}
 				if r.OK() && dup != nil {
 					rec.Remove(o)
 					e.St.Probes["moved_out_of_recovery_onto_duplicate"]++
